@@ -356,6 +356,25 @@ def run(index, rep, tier):
                           "%s creates `<node>.%s` only when it is missing and then appends to it, and never removes what an earlier call left there: on a species tree that was decorated before (or on the working copy, which deep-copies the decoration) the lists already hold the lineages of the previous run, so the second call returns a gene tree with three times the leaves and corrupts the first - for equal generator states the two calls must return identical trees" % (fi.qualname, a))
         rep.floor("R18.13", "node attributes accumulated on demand by the coalescent simulators", 1, n13)
 
+    # ---- R18.14 the default generator can be seeded; R18.15 one set of genes per species
+    with rep.section("R18.14"):
+        rep.rule("R18.14", "the default generator is one that can be seeded and restored: dendropy.utility.GLOBAL_RNG is an instance of random.Random itself - random.SystemRandom ignores seed() and refuses getstate() / setstate(), so every simulator called without an explicit rng would stop being a function of the generator state")
+        um = index.module("dendropy.utility")
+        asg = [st for st in um.tree.body if isinstance(st, ast.Assign) and any(isinstance(t, ast.Name) and t.id == "GLOBAL_RNG" for t in st.targets)]
+        if len(asg) != 1:
+            raise AnalysisError("R18.14: dendropy.utility.GLOBAL_RNG is not assigned exactly once at module level")
+        v = asg[0].value
+        ok = isinstance(v, ast.Call) and norm(v.func) in ("random.Random", "Random")
+        rep.check(ok, "R18.14", "dendropy.utility.GLOBAL_RNG", "GLOBAL_RNG = %s" % norm(v)[:40], "src/dendropy/utility/__init__.py:%d" % asg[0].lineno, "GLOBAL_RNG = random.Random()",
+                  "dendropy.utility.GLOBAL_RNG is built with `%s`: only random.Random honours seed() / getstate() / setstate(); with any other generator two runs after the same GLOBAL_RNG.seed(s) differ, and differ from the run given rng=Random(s)" % norm(v)[:50])
+    with rep.section("R18.15"):
+        rep.rule("R18.15", "one set of genes per species: the containing-taxon mapping that contained_coalescent_tree reads (TaxonNamespaceMapping, in the taxon model) installs no single mutable object under many keys - dict.fromkeys(range, set()) would put every gene into every species, and lineages of different species would coalesce before their species diverged")
+        rep.floor("R18.15", "container constructions in the taxon model examined", 0, one_object_many_slots_rule(index, rep, "R18.15", ["dendropy.datamodel.taxonmodel"]))
+        tm_ = index.function("dendropy.datamodel.taxonmodel.TaxonNamespaceMapping.apply_mapping_fn")
+        revs = [w for w in writes_in(tm_.node) if w.attr == "reverse"]
+        rep.check(bool(revs), "R18.15", tm_.qualname, "the reverse mapping is no longer built here", fn_where(tm_), "apply_mapping_fn builds the reverse mapping (%d writes)" % len(revs),
+                  "TaxonNamespaceMapping.apply_mapping_fn no longer writes `self.reverse`")
+
 
 def _distinct_labels_rule(index, rep):
     """R18.3: `require_taxon(label=L)` returns an *existing* taxon when the label is taken, so a
